@@ -70,7 +70,9 @@ class Net:
     sizes (callable rng -> payload length), retry_modes, steps, heal_after (step index after
     which the network is perfect and no new sends happen), mtu, tick (ticks per step)"""
 
-    def __init__(self, run, rng, cfg, mtu=1500, key=7, established=True, seq0=None, pinned=True):
+    def __init__(self, run, rng, cfg, mtu=1500, key=7, established=True, seq0=None, pinned=True, seq0_server=None):
+        """seq0 (optional) = [datagram counter, message counter] both endpoints start with; seq0_server (optional)
+        = the same for the server-side connection alone (default: seq0)"""
         self.run, self.rng, self.cfg = run, rng, cfg
         self.mtu = mtu
         self.keys = S.Keys()
@@ -78,7 +80,8 @@ class Net:
         S.CLOCK.t = T * 100
         self.t = S.CLOCK.t
         self.A = Endpoint("client", self.keys, key, established=established, seq0=seq0, pinned=pinned)   # client
-        self.B = Endpoint("server", self.keys, key, established=established, seq0=seq0)                  # server-side connection
+        self.B = Endpoint("server", self.keys, key, established=established,
+                          seq0=seq0_server if seq0_server is not None else seq0)                           # server-side connection
         self.key = key
         self.flight = []           # (deliver_at, dst, bytes, dgram_index)
         self.emitted = {"client": [], "server": []}   # every datagram ever emitted (bytes, time)
